@@ -161,6 +161,7 @@ class ShapeBuilder(object):
             if (cls, fld.name) == ('arguments', 'defaults') and k >= 1 and p.count('.defaults') == 1 and \
                     self.pick(key + ('first',), ['opaque', 'Lambda']) == 'Lambda':
                 out[0] = self.node('Lambda', '%s[0]' % p)
+                out[0].nested_scope = True       # its inner positions are the subject of the Lambda summaries, not of the owner's
             return out
         if sort == 'stmt':
             if mult == '*':
